@@ -16,6 +16,7 @@ TNext == \/ (Is("Reset") /\ rng' = [u \in Units |-> None] /\ held' = <<>>)
          \/ (Is("Ledger") /\ Ledger(Ev.live, Ev.errors))
          \/ (Is("PAlloc") /\ PAlloc(Ev.t, Ev.h, Ev.al))
          \/ (Is("PFree") /\ PFree(Ev.t, Ev.h, Ev.intact))
+         \/ (Is("PMove") /\ PMove(Ev.t, Ev.h, Ev.to))
          \/ (Is("End") /\ (Ev.why = "done" => held = <<>>) /\ UNCHANGED hvars)
 TSpec == TInit /\ [][TNext]_tvars
 NotAccepted == l <= Len(TraceLog)
